@@ -85,3 +85,18 @@ Definition shaped (evs : list pev) (i b : nat) : Prop :=
 (* every cell of the population satisfies P *)
 Definition all_cells (P : cell RN -> Prop) (cs : list (column RN)) : Prop :=
   Forall (fun col => Forall P (cells RN col)) cs.
+
+(* iterating the spike-driven threshold adaptation kernel (no refractory freezing) over a spike train, and its
+   independent sum-over-events description *)
+Fixpoint ats_run (a : R) (ss : list bool) (dt tc inc : R) : R :=
+  match ss with
+  | [] => a
+  | s :: tl => ats_run (adaptive_thresholds_linear_spike RN a s dt tc inc None) tl dt tc inc
+  end.
+(* spikes in chronological order; a spike followed by k further steps has decayed k times... *)
+Fixpoint event_sum (lam inc : R) (ss : list bool) : R :=
+  match ss with
+  | [] => 0
+  | s :: tl => inc * ind s * lam ^ (length tl) + event_sum lam inc tl
+  end.
+
